@@ -1,5 +1,8 @@
 //@item src/bytewise.rs struct DoubleArrayAhoCorasick
+//@item src/lib.rs struct Match
 //@include intoiter.rs
+//@include ghost_iter_bw.rs
+//@include ghost_ac.rs
 //@include ghost_wrap_bw.rs
 
 //@impl src/bytewise/builder.rs impl DoubleArrayAhoCorasickBuilder
@@ -15,6 +18,9 @@
             &&& nfa_tree(nfa) && nfa_links(nfa, lm_of(self.match_kind)) && nfa_outs_ok(nfa)
             // C15: the states >= 2 are exactly the non-empty prefixes of the registered patterns
             &&& trie_ok(nfa) && reach_ok(nfa) && seen_is(nfa, into_items(patvals), into_items(patvals).len() as int)
+            // C06: registered patterns carry the value of their pair; standard kind: the (assumed) Aho-Corasick contract of the passes
+            &&& values_are(nfa, into_items(patvals), into_items(patvals).len() as int)
+            &&& self.match_kind is Standard ==> ac_fail(nfa) && ac_outs(nfa)
         },
         Err(e) => match e {
             DaachorseError::InvalidArgument => into_items(patvals).len() == 0 || has_empty(into_items(patvals)) || has_huge(into_items(patvals)),
@@ -34,7 +40,7 @@
         verif_it1.obeys_prophetic_iter_laws(), verif_it1.decrease().is_some(), verif_it1.remaining() == items.skip(k),
         add_inv(nfa), reach_ok(nfa), nfa.match_kind == self.match_kind, nfa.len <= k, nfa.states@.len() <= u32::MAX as nat + 1,
         k > 0 ==> nfa.len > 0,
-        seen_is(nfa, items, k),
+        seen_is(nfa, items, k), values_are(nfa, items, k),
         forall|i: int| 0 <= i < k ==> (#[trigger] pat_at(items, i)).len() > 0,
         forall|i: int, j: int| 0 <= i < j < k ==> #[trigger] pat_at(items, i) != #[trigger] pat_at(items, j),
     ensures k == items.len(),
@@ -69,6 +75,11 @@
         if k == 0 { assert(!add_shadowed(n_b, pk)) by {
             if add_shadowed(n_b, pk) { let kk = choose|kk: int| 0 <= kk < pk.len() && is_registered(n_b, pk.take(kk)); assert(seen(n_b, pk.take(kk))); }
         } }
+        // values
+        assert forall|j: int| 0 <= j < k + 1 && is_registered(nfa, #[trigger] pat_at(items, j)) implies reg_out(nfa, pat_at(items, j)).unwrap().0 == items[j].1 by {
+            if j < k { assert(pat_at(items, j) != pk); assert(is_registered(n_b, pat_at(items, j))); }
+            else { assert(items[k] == (pattern, value)); }
+        }
         assert(items.skip(k).skip(1) =~= items.skip(k + 1));
         k = k + 1;
     }
@@ -94,6 +105,7 @@
         assert(passes_frame(n_f, nfa));
         assert(passes_frame(n_a, nfa));
         lemma_frame_keeps_trie(n_a, nfa);
+        lemma_frame_keeps_values(n_a, nfa, items, items.len() as int);
         assert(fails_ok(nfa, lm_of(self.match_kind))) by { lemma_links_same_fail(n_f, nfa, lm_of(self.match_kind)); }
         lemma_trie_gives_tree(nfa);
         assert(seen_is(nfa, items, items.len() as int));
@@ -113,6 +125,11 @@
             // C15: num_states is the number of trie states without the dead state
             &&& exists|n: NfaBuilder<u8, V>| trie_ok(n) && reach_ok(n) && seen_is(n, into_items(patvals), into_items(patvals).len() as int)
                     && #[trigger] n.states@.len() == pma.num_states + 1 && pma.states@.len() >= n.states@.len()
+                    // C06 / C01 / C02 / C05 end to end (standard kind, relative to the assumed contract of the fail/output passes):
+                    // the trie n records the patterns with their values, and the streams the three standard iterators refine equal
+                    // the property-level semantics over n
+                    && values_are(n, into_items(patvals), into_items(patvals).len() as int)
+                    && (verif_self.match_kind is Standard ==> searches_ok(pma.states@, pma.outputs@, n))
         },
         Err(e) => match e {
             DaachorseError::InvalidArgument => into_items(patvals).len() == 0 || has_empty(into_items(patvals)) || has_huge(into_items(patvals)),
@@ -133,6 +150,7 @@
         lemma_encodes_gives_wf(nfa, st, idmap, lm_of(verif_self.match_kind));
         lemma_built_outs_ok(st, nfa, idmap);
         lemma_slots_at_least_states(st, nfa, idmap);
+        if verif_self.match_kind is Standard { lemma_searches_ok(nfa, st, idmap); }
         assert(bw_wf(st, lm_of(verif_self.match_kind)));
         assert(outs_ok(st, nfa.outputs@));
         assert(verif_me.match_kind == verif_self.match_kind);
